@@ -160,6 +160,15 @@ def row_bytes(arr):
     return [raw[i].tobytes() for i in range(raw.shape[0])]
 
 
+def norm_rows(cfg, arr):
+    """row bytes of a reader result in the channel's own byte order (np.concatenate inside the
+    reader normalises multi-file blocks to native order; that is a representation detail)"""
+    sd = cfg.sample_dtype()
+    if arr.dtype != sd and arr.dtype.kind == sd.kind and arr.dtype.itemsize == sd.itemsize and arr.dtype.names == sd.names:
+        arr = arr.astype(sd)
+    return row_bytes(arr)
+
+
 def fill_row(cfg):
     """Bytes of one never-written slot in continuous-unchunked mode (documented fill)."""
     rd = cfg.real_dtype()
